@@ -132,6 +132,9 @@ def run(ctx):
         for P in ["-", "+", "¬", "±"]:
             rows.append([("mi", "a"), ("mo", X), ("mo", P), ("mn", "2"), ("mo", "("), ("mi", "c"), ("mo", "+"), ("mi", "d"), ("mo", ")")])
             rows.append([("mn", "1"), ("mo", X), ("mo", P), ("mn", "2"), ("mn", "3"), ("mo", "+"), ("mi", "z")])
+    # witnesses of the known finding C03-operator-before-operator-read-as-infix (so that every run shows it)
+    rows.append([("mo", "-"), ("mo", "-"), ("mi", "h"), ("mo", "×"), ("mi", "q")])
+    rows.append([("mo", "-"), ("mo", "-"), ("mi", "h"), ("mo", "+"), ("mi", "q")])
     n_echo = len(rows)
     # exhaustive: every row up to length 3 (thorough: 5) over a 13-symbol alphabet with every kind of operator and fence
     import itertools
@@ -183,7 +186,11 @@ def run(ctx):
         if rc.get("r") == "ok" and rc["v"]:
             wf = well_formed(r, opsets)
             if wf:
-                oracle_fail.append({"why": "; ".join(rc["v"]), "row": r, "tree": checks[cidx.index(idx)]["tree"], "lines": pre + [reqs[idx]]})
+                why = "; ".join(rc["v"])
+                # known finding C03-operator-before-operator: the form of an operator that is directly followed by another operator is taken to be infix
+                # (compute_type_from_position), also where only a prefix operator can stand; that can only break clauses (a)/(b)
+                cls = "prefix-chain" if prefix_chain(r, opsets) and all(v.startswith(("(a)", "(b)")) for v in rc["v"]) else "plain"
+                oracle_fail.append({"why": why, "class": cls, "row": r, "tree": checks[cidx.index(idx)]["tree"], "lines": pre + [reqs[idx]]})
     # vertical bars: a matched pair encloses exactly its contents
     def flat(t):
         return [t] if isinstance(t, str) else [x for k in (t if isinstance(t, list) else t.get("kids", [])) for x in flat(k)]
@@ -240,7 +247,7 @@ def run(ctx):
     })
     for f in oracle_fail:
         ctx.violation("implementation violates C03: " + json.dumps({k: v for k, v in f.items() if k != "lines"}, ensure_ascii=False)[:400],
-                      {"kind": "impl-vs-oracle", "case": {k: v for k, v in f.items() if k != "lines"}, "lines": f["lines"]}, tag="oracle", signature={"kind": "c03-oracle", "why": f["why"]})      # (the bar oracle's 'why' names simple / complex contents)
+                      {"kind": "impl-vs-oracle", "case": {k: v for k, v in f.items() if k != "lines"}, "lines": f["lines"]}, tag="oracle", signature={"kind": "c03-oracle", "why": f["why"], "class": f.get("class", "plain")})      # (the bar oracle's 'why' names simple / complex contents)
     found = bool(ctx.violations)
     if extraction_failed:
         ctx.violation(f"translator could not parse the operator dictionary ({extraction_failed})", {"kind": "translator", "theorem": "MC.Props.C03.*", "error": extraction_failed}, tag="translator", no_input=not found)
@@ -251,6 +258,23 @@ def run(ctx):
         ctx.violation("model and implementation disagree on a row: " + json.dumps({k: v for k, v in d.items() if k != "lines"}, ensure_ascii=False)[:400],
                       {"kind": "correspondence", "correspondence": "MC.Rows.parseRow vs set_mathml", "cases": [{k: v for k, v in x.items() if k != "lines"} for x in disagreements[:5]], "lines": d["lines"]},
                       tag="corr", no_input=True)
+
+
+def prefix_chain(row, opsets):
+    """is there an operator in operand position (start of the row, or after an operator that is not a right fence and can be infix or
+    prefix) that is directly followed by another operator which is not a left fence?  (- - h, a + - - b)"""
+    for i in range(len(row) - 1):
+        (k, v), (k2, v2) = row[i], row[i + 1]
+        if k != "mo" or k2 != "mo" or v in opsets["left"] or v in opsets["right"] or v2 in opsets["left"] or v2 in opsets["right"]:
+            continue
+        if v not in opsets["prefix"] or v2 not in opsets["prefix"]:
+            continue
+        if i == 0:
+            return True
+        pk, pv = row[i - 1]
+        if pk == "mo" and pv not in opsets["right"] and (pv in opsets["infix"] or pv in opsets["prefix"]):
+            return True
+    return False
 
 
 def well_formed(row, opsets):
